@@ -257,7 +257,7 @@ def reaching_defs(ctx, f, at_node, name):
         if n.kind == "stmt" and isinstance(a, (ast.Assign, ast.AnnAssign, ast.AugAssign)):
             if name in assigned_paths(a):
                 hit = True
-                if isinstance(a, ast.Assign) and len(a.targets) == 1 and isinstance(a.targets[0], ast.Name):
+                if isinstance(a, ast.Assign) and any(isinstance(t, ast.Name) and t.id == name for t in a.targets):
                     out.append(a.value)
                 elif isinstance(a, ast.AnnAssign) and a.value is not None:
                     out.append(a.value)
